@@ -438,6 +438,7 @@ pub fn plan(prop: &str, tier: &str) -> Option<Plan> {
                     s.push(e2(prop, "zd", H_GOOD, "look+mut+ch1+bulk2+shape2+iterlite", &fl, 1, prof, 45.0));
                     s.push(e1(prop, "big", H_GOOD, 0, "look1+mut+ch1+bulk+shape+iterlite", &fl, if prof == "asan" { 31 } else { 40 }, 1, 1, prof, 45.0));
                     s.push(as_set(e1(prop, "big", H_LOW, 0, "skey+sshape", &fl, 31, 1, 1, prof, 45.0)));
+                    s.push(e1(prop, "tk", H_GOOD, 0, "nokey", &fl, 40, 1, 0, prof, 45.0));
                     // old tables of every size emptied again through the removal APIs (cursor vs contents)
                     s.push(sweep(prop, "u32", H_GOOD, if prof == "asan" { 20_000 } else { 60_000 }, &["cursor", "cheap"], &[("drain_old", "1"), ("audit_every", "0")], prof, 45.0));
                     s.push(sweep(prop, "big", H_GOOD, if prof == "asan" { 300 } else { 500 }, &["cursor", "cheap"], &[("drain_old", "1"), ("audit_every", "0")], prof, 45.0));
@@ -464,6 +465,7 @@ pub fn plan(prop: &str, tier: &str) -> Option<Plan> {
                     s.push(e1(prop, "big", H_LOW, 0, a, &fl, if prof == "asan" { 20 } else { 33 }, 2, 1, prof, 1200.0));
                     s.push(as_set(e1(prop, "big", H_LOW, 0, "skey+sshape+siter", &fl, 64, 1, 1, prof, 900.0)));
                     s.push(e2(prop, "big", H_GOOD, "look1+mut+ch0+shape2+iterlite", &fl, 4, prof, 1200.0));
+                    s.push(e1(prop, "tk", H_GOOD, 0, "mut1+shape/nokey", &fl, 64, 2, 0, prof, 900.0));
                     s.push(sweep(prop, "u32", H_GOOD, 1_000_000, &["cursor", "cheap"], &[("drain_old", "1"), ("audit_every", "0")], prof, 900.0));
                     s.push(sweep(prop, "tk", H_LOW, 3_000, &["cursor", "cheap"], &[("drain_old", "1"), ("audit_every", "0")], prof, 900.0));
                     s.push(sweep(prop, "big", H_GOOD, 10_000, &["cursor", "cheap"], &[("drain_old", "1"), ("audit_every", "0")], prof, 900.0));
@@ -625,6 +627,7 @@ pub fn plan(prop: &str, tier: &str) -> Option<Plan> {
                 s.push(e1(prop, "u32", H_GOOD, 0, "ch2", &fl, 48, 1, 1, "chk", 45.0));
                 s.push(e1(prop, "u32", H_GOOD, 0, "ch1", &fl, 130, 1, 0, "chk", 45.0));
                 s.push(e1(prop, "u32", H_GOOD, 0, "ch0", &fl, 500, 1, 0, "chk", 45.0));
+                s.push(e1(prop, "tk", H_GOOD, 0, "nokey", &["cursor"], 64, 1, 0, "chk", 45.0)); // (no work monitors: a caught panic allocates)
                 s.push(e2(prop, "u32", H_GOOD, "ch2+shape2", &fl, 2, "chk", 45.0));
                 s.push(e2(prop, "zst", H_GOOD, "ch3+shape2", &fl, 1, "chk", 45.0));
                 bounds = json!({"E1": "every entry / raw-entry method chain of length <=3 on every key class at every point of the growth path to N=58 (4 hashers); length <=2 on every concrete key to N=48 and after one shaping deviation to N=10; core chains on every class to N=130", "E2": "fixpoint u=2 with all chains of length <=2; ZST length <=3"});
@@ -949,6 +952,7 @@ pub fn plan(prop: &str, tier: &str) -> Option<Plan> {
                 base.push(e1(prop, "u32", H_GOOD, 0, "look1+mut+ch0+shape", &[], 24, 2, 1, "chk", 45.0));
                 base.push(e1(prop, "u32", H_GOOD, 0, "ch3", &[], 40, 1, 0, "chk", 45.0));
                 base.push(e1(prop, "u32", H_GOOD, 0, "iter", &[], 40, 1, 0, "chk", 45.0)); // incl. nth / skip at the integer limits
+                base.push(e1(prop, "u32", H_GOOD, 0, "nokey", &[], 40, 1, 0, "chk", 45.0));
                 base.push(e1(prop, "tk", H_TAG, 0, full, &[], 33, 1, 1, "chk", 45.0));
                 base.push(e1(prop, "u32", H_GOOD, 0, "mut1+ch0+shape/capall+caphuge+fill", &["c10"], 24, 2, 1, "chk", 45.0));
                 base.push(e1(prop, "u32", H_GOOD, 0, "capall+caphuge", &["c10"], 130, 1, 0, "chk", 45.0));
@@ -962,6 +966,7 @@ pub fn plan(prop: &str, tier: &str) -> Option<Plan> {
                 }
                 base.push(e1(prop, "u32", H_GOOD, 0, "ch3", &[], 130, 1, 0, "chk", 900.0));
                 base.push(e1(prop, "u32", H_GOOD, 0, "mut1+shape/iter", &[], 64, 2, 0, "chk", 900.0));
+                base.push(e1(prop, "u32", H_GOOD, 0, "mut1+shape/nokey", &[], 64, 2, 0, "chk", 900.0));
                 base.push(e1(prop, "tk", H_GOOD, 0, full, &[], 130, 1, 1, "chk", 900.0));
                 base.push(e1(prop, "tk", H_TAG, 0, "look1+mut+ch0+shape", &[], 33, 2, 1, "chk", 1200.0));
                 base.push(e1(prop, "u32", H_GOOD, 0, "mut1+ch0+shape/capall+caphuge+fill", &["c10"], 64, 2, 1, "chk", 1200.0));
